@@ -126,8 +126,8 @@ def run(chk, replay=None):
 
     base = "ValueConservation.cfg" if chk.tier == "quick" else "ValueConservationThorough.cfg"
     # quick: one TLC run over all eras; thorough: one run per group of eras, side by side
-    groups = [None] if chk.tier == "quick" else [["shelley", "allegra"], ["mary", "alonzo"], ["babbage"],
-                                                 ["conway"], ["dijkstra"]]
+    groups = [None] if chk.tier == "quick" else [["conway"], ["dijkstra"], ["mary", "alonzo"], ["babbage"],
+                                                 ["shelley", "allegra"]]   # largest first (3 at a time)
 
     def model_check(i):
         g = groups[i]
